@@ -80,12 +80,16 @@ let payload (tok : string) : int list =
   | ["g"; len; seed; kind] -> gen (int_of_string len) (Int64.of_string seed) kind
   | _ -> failwith ("bad payload " ^ tok)
 
+let crc_table = lazy (Array.init 256 (fun i ->
+  let c = ref i in
+  for _ = 1 to 8 do
+    c := if !c land 1 <> 0 then 0xEDB88320 lxor (!c lsr 1) else !c lsr 1
+  done; !c))
 let digest (b : int list) : string =
-  let h = ref 0xcbf29ce484222325L in
-  List.iter (fun x ->
-    h := Int64.logxor !h (Int64.of_int x);
-    h := Int64.mul !h 0x100000001b3L) b;
-  Printf.sprintf "%d:%016Lx" (List.length b) !h
+  let t = Lazy.force crc_table in
+  let c = ref 0xFFFFFFFF in
+  List.iter (fun x -> c := t.((!c lxor x) land 0xFF) lxor (!c lsr 8)) b;
+  Printf.sprintf "%d:%08x" (List.length b) ((!c lxor 0xFFFFFFFF) land 0xFFFFFFFF)
 
 let show (b : int list) : string =
   if List.length b <= 64 then "x:" ^ hex_of_bytes b else "d:" ^ digest b
